@@ -612,6 +612,12 @@ Proof.
     intros H; inversion H; subst. cbn [mfeed_list]. unfold cache_connect_error in E.
     eapply cache_on_target_local; [|exact E].
     intros t0 t' fd r' Hi Ef. cbv beta in Ef. eapply on_target_inv; [exact Hi| |exact Ef]. reflexivity.
+  - (* MSubWalk with a Remove at the hook point *)
+    destruct rm as [x|]; [|discriminate]. inversion Ha; subst.
+    destruct (cache_has_target c tgt).
+    + pose proof (cache_remove_local c now t Hnd) as Hl.
+      destruct (cache_remove c now t) as [c1 l]. intros H; inversion H; subst. exact Hl.
+    + intros H; inversion H; subst. apply local_refl.
 Qed.
 
 (** ** every step keeps the invariant *)
@@ -651,10 +657,12 @@ Proof.
     + pose proof (cache_update_metadata_cinv c now Hc) as H.
       destruct (cache_update_metadata c now) as [[c1 l] p]. exact H.
     + cbn [fst]. now apply cinv_update_size.
+    + destruct rm; discriminate.
   - destruct o; cbn [op_addr] in Ha; try discriminate; cbn [cstep].
     + destruct (n_prefix n) as [pr|] eqn:Hp; [discriminate|].
       unfold cache_gnmi_update. rewrite Hp. exact Hc.
     + exact Hc.
+    + destruct rm; [discriminate|]. destruct (cache_has_target c tgt); exact Hc.
 Qed.
 
 Lemma mstep_cache s o :
@@ -662,7 +670,8 @@ Lemma mstep_cache s o :
 Proof.
   unfold mstep. destruct (cstep (ms_cache s) o) as [[c' r] f]. cbn [fst].
   destruct o; try reflexivity.
-  destruct (sub_attach c' tgt) as [sb out]. reflexivity.
+  - destruct (sub_attach c' tgt) as [sb out]. reflexivity.
+  - destruct (sub_attach_walk (ms_cache s) c' tgt (mfeed_list f)) as [sb out]. reflexivity.
 Qed.
 
 Theorem mrun_cinv ops : forall s, cinv (ms_cache s) -> cinv (ms_cache (mrun s ops)).
@@ -705,6 +714,7 @@ Proof.
   - destruct (n_prefix n) as [pr|] eqn:Hp; [discriminate|].
     unfold cache_gnmi_update. rewrite Hp. intros H; inversion H; subst. split; reflexivity.
   - intros H; inversion H; subst. split; reflexivity.
+  - destruct rm; [discriminate|]. destruct (cache_has_target c tgt); intros H; inversion H; subst; split; reflexivity.
 Qed.
 
 (** all announcements of a run *)
@@ -1480,4 +1490,74 @@ Proof.
     unfold same_as_before in H1. cbn [fst snd] in H1.
     destruct (assoc k prev) as [b|]; [|discriminate]. exists b. auto.
   - intros n Hin. specialize (H2 _ Hin). now apply String.eqb_eq in H2.
+Qed.
+
+(** * UpdateMetadata touches nothing outside "meta", in any target *)
+
+Lemma update_meta_frame t now :
+  t_name t <> ""%string -> wf_tree (t_tree t) ->
+  forall p0 rest, p0 <> md_root ->
+    lookup (t_tree (fst (fst (update_meta t now)))) (p0 :: rest) = lookup (t_tree t) (p0 :: rest).
+Proof.
+  intros Hne Hwf p0 rest Hp. unfold update_meta. cbv zeta.
+  match goal with |- context [generate_meta_updates ?x now] => set (t1 := x) end.
+  destruct (generate_meta_updates_frame t1 now Hne Hwf) as (_ & _ & Hfr). exact (Hfr p0 rest Hp).
+Qed.
+
+(** every target of the cache after UpdateMetadata stores, outside "meta",
+    exactly what it stored before *)
+Theorem update_metadata_frame c now name :
+  cinv c -> name <> ""%string ->
+  forall p0 rest, p0 <> md_root ->
+    match assoc name (c_targets (fst (fst (cache_update_metadata c now)))), assoc name (c_targets c) with
+    | Some t', Some t => lookup (t_tree t') (p0 :: rest) = lookup (t_tree t) (p0 :: rest)
+    | None, None => True
+    | _, _ => False
+    end.
+Proof.
+  intros Hc Hne p0 rest Hp. unfold cache_update_metadata.
+  set (step := fun (st : cache * list notif * option N) (kt : string * target) =>
+    match st with
+    | (c', feed, Some w) => st
+    | (c', feed, None) =>
+        match assoc (fst kt) (c_targets c') with
+        | None => st
+        | Some t => let '(t', f, p) := update_meta t now in (set_target c' (fst kt) t', feed ++ f, p)
+        end
+    end).
+  assert (H : forall l (st : cache * list notif * option N),
+            cinv (fst (fst st)) ->
+            cinv (fst (fst (fold_left step l st))) /\
+            match assoc name (c_targets (fst (fst (fold_left step l st)))),
+                  assoc name (c_targets (fst (fst st))) with
+            | Some t', Some t => lookup (t_tree t') (p0 :: rest) = lookup (t_tree t) (p0 :: rest)
+            | None, None => True
+            | _, _ => False
+            end).
+  { induction l as [|kt l IH]; intros st Hst; cbn [fold_left].
+    - split; [exact Hst|]. destruct (assoc name (c_targets (fst (fst st)))); auto.
+    - assert (Hs : cinv (fst (fst (step st kt))) /\
+                   match assoc name (c_targets (fst (fst (step st kt)))),
+                         assoc name (c_targets (fst (fst st))) with
+                   | Some t', Some t => lookup (t_tree t') (p0 :: rest) = lookup (t_tree t) (p0 :: rest)
+                   | None, None => True
+                   | _, _ => False
+                   end).
+      { subst step. cbv beta. destruct st as [[c' feed] [w|]]; cbn [fst] in *.
+        { split; [exact Hst|]. destruct (assoc name (c_targets c')); auto. }
+        destruct (assoc (fst kt) (c_targets c')) as [t|] eqn:Ea; cbn [fst].
+        2:{ split; [exact Hst|]. destruct (assoc name (c_targets c')); auto. }
+        pose proof (update_meta_inv (fst kt) t now (proj2 Hst _ _ Ea)) as Hu.
+        pose proof (update_meta_frame t now) as Hf.
+        destruct (update_meta t now) as [[t' f] p]. cbn [fst] in *. destruct Hu as [Hi _].
+        split; [now apply cinv_set_target|].
+        cbn [c_targets set_target]. rewrite assoc_aset.
+        destruct (String.eqb_spec name (fst kt)) as [->|Hn].
+        - rewrite Ea. destruct (proj2 Hst _ _ Ea) as [[Hwf _] Hnm]. apply Hf; auto. congruence.
+        - destruct (assoc name (c_targets c')); auto. }
+      destruct Hs as [Hc1 Hm1]. destruct (IH _ Hc1) as [Hc2 Hm2]. split; [exact Hc2|].
+      destruct (assoc name (c_targets (fst (fst (fold_left step l (step st kt)))))) as [t2|];
+        destruct (assoc name (c_targets (fst (fst (step st kt))))) as [t1|];
+        destruct (assoc name (c_targets (fst (fst st)))) as [t0|]; try contradiction; auto. congruence. }
+  exact (proj2 (H (c_targets c) (c, [], None) Hc)).
 Qed.
